@@ -244,8 +244,10 @@ func (selector *CoinSelector) SortedSearch() ([]*Utxo, uint64, uint64) {
 				pass = 1
 			}
 		case 1:
-			feeReplaced, lr := selector.getLossRatio(append(selection[:len(selection)-1:cap(selection)-1], u))
-			if sumTemp := sum - selection[len(selection)-1].Value + u.Value; (sumTemp == selector.target ||
+			last := selection[len(selection)-1]
+			trial := append(append(make([]*Utxo, 0, len(selection)), selection[:len(selection)-1]...), u)
+			feeReplaced, lr := selector.getLossRatio(trial)
+			if sumTemp := sum - last.Value + u.Value; (sumTemp == selector.target ||
 				sumTemp >= selector.target+selector.mc) && lr < selector.maxP {
 				fee, sum = feeReplaced, sumTemp
 				selection[len(selection)-1] = u
